@@ -249,7 +249,8 @@ class CliAnyText(Instance):
 PAN = [(b"pan.fa", [(b"s1#0#chr1", C1), (b"s1#0#chr2", [3, 3, 2, 0]), (b"s2#0#chr1", C2), (b"s2#0#chr2", C1[:9] + [7] + C1[10:])])]
 _reg(CliCreate("create_pan_t1", PAN, threads=1))
 _reg(CliCreate("create_pan_t2", PAN, threads=2))
-_reg(CliCreate("T_create_two_t2_p1", FILES2, threads=2, preempt=1))
+_reg(CliCreate("T_create_two_t2_p1", FILES2[:2], threads=2, preempt=1))
+_reg(CliCreate("T_create_two_t3", FILES2, threads=3, preempt=0))
 _reg(CliPresentations("present_arc", FILES2))
 _reg(CliAnyText("anytext3", 3))
 _reg(CliAnyText("T_anytext4", 4))
